@@ -210,6 +210,11 @@ def gen(args):
     if rng.random() < 0.2:
         # large cells: the longest edge between 25 and 99 Angstrom (fixed-width number fields get full)
         u = rng.uniform(25.0, 99.0) / math.sqrt(max(gram[i][i] for i in range(3)))
+    if rng.random() < 0.15:
+        # an edge a hair away from a whole number of Angstrom (12.00008): still a different cell at the written precision
+        i = rng.randrange(3)
+        li = math.sqrt(gram[i][i]) * u
+        u = (max(3.0, round(li)) + rng.choice([-1, 1]) * rng.choice([3e-6, 2e-5, 8e-5])) / math.sqrt(gram[i][i])
     rec = {"number": row["number"], "choice": row["choice"], "n": n, "gram": gram, "u": u, "asym": asym, "fmt": fmt, "via": via,
            "provenance": prov, "route": rng.choice(["params", "vectors"]), "written_before": rng.random() < 0.4}
     if fmt == "poscar" and rng.random() < 0.4:
